@@ -623,10 +623,13 @@ fn main() {
          builder calls honouring the documented filename / version / count rules. Deterministic grid (every version × \
          {serializer-generated 256, bare, each sub-chunk alone, all sub-chunks, two different chunks, 256 different chunks, \
          name styles, float classes, each top-level optional chunk, every MH2O vertex format ± bitmap}) + canaries with \
-         the exclusion switches off + proptest volume (1 in 10 tiles with 180..256 chunks). Non-trivial = ≥2 MCNK with \
-         different sub-chunk sets, or MH2O water, or version ≥ WotLK with version-specific chunks (MTXF/MAMP/MTXP/blend \
-         mesh/MCLV). Distinct = version × chunk-count class × number of distinct sub-chunk sets × union of parts × alpha \
-         encodings × top-level set × placements × names style × float class.",
+         the exclusion switches off + proptest volume (three batches: steered, steered with 180..256-chunk tiles — 1 \
+         tile in 10 —, and unsteered). Every case: build → to_bytes → walker → parse → content diff, then up to 3 (6) \
+         rounds of from_root_adt → to_bytes → walker → parse → diff + length, then one from_parsed().build() round. \
+         Non-trivial = ≥2 MCNK with different sub-chunk sets, or MH2O water, or version ≥ WotLK with version-specific \
+         chunks (MTXF/MAMP/MTXP/blend mesh/MCLV). Distinct = batch × version × chunk-count class (auto256, 1, 2-4, 5-15, \
+         16-255, 256) × number of distinct sub-chunk sets (1, 2, 3+) × set of alpha encodings × legacy liquid? × \
+         refs/extras? × set of top-level optional chunks; name styles and float classes are tallied in counters.",
     );
     check.assume("chunk magics are byte-reversed on disk; MHDR offsets are relative to the MHDR payload start; MCNK sub-offsets are relative to the MCNK chunk header (wowdev ADT/v18; also the crate's own comments)");
     check.assume("MCIN.size counts the MCNK chunk including its 8-byte header (repository docs/src/formats/world-data/adt.md and the crate's legacy writer mcnk_writer.rs both say so)");
@@ -699,7 +702,7 @@ fn main() {
     // MFBO, blend without MTXP), so those regions are still explored with all other clauses live.
     let soft_off = Switches { no_mcrf: false, no_split_extras: false, mop_blend_needs_mtxp: false, tbc_plus_always_mfbo: false, ..Switches::all_on() };
     let n_small = check.tier.pick(12_000u32, 300_000);
-    let n_big = check.tier.pick(600u32, 15_000);
+    let n_big = check.tier.pick(1_200u32, 30_000);
     let n_unsteered = check.tier.pick(3_000u32, 80_000);
     for (label, n, big, shrink, sw) in [
         ("random", n_small, false, 600u32, sw.clone()),
@@ -722,6 +725,18 @@ fn main() {
             },
         );
     }
+    check.set_extra(
+        "exclusion_switches",
+        json!({
+            "no_trailing_mclq": "the last MCNK of the file never ends with MCLQ (a sound emitter is appended); canary: */canary-trailing-mclq",
+            "no_mcrf": "no MCRF references in steered batches; explored in random-unsteered and */canary-mcrf",
+            "no_split_extras": "no MCRD/MCRW/MCMT/MCDD/MCBB in steered batches; explored in random-unsteered and canaries",
+            "mop_blend_needs_mtxp": "MoP blend-mesh tiles always get MTXP in steered batches; canary MoP/canary-blend-without-mtxp",
+            "tbc_plus_always_mfbo": "tiles ≥ TBC always get MFBO in steered batches; canaries */canary-no-mfbo, random-unsteered",
+            "trim_unbounded": "oracle side: until-EOF fields of the parsed tile are cut back to their written length before each rebuild; canaries */canary-untrimmed run the faithful rounds",
+            "counts": "see counters switch_applied:*"
+        }),
+    );
     // vacuity guard: the run must have compared content on nearly everything it generated
     let compared = check.counter("cases_compared");
     if compared * 10 < check.evaluations() * 9 {
